@@ -57,12 +57,13 @@ theorem stepsOfLegs_valid (cx : Ctx) (C T : List Conn) (hCT : ∀ c ∈ C, c ∈
         cases hs : stepsOfLegs cx.ds cx.p.minWait (x.arr + l.walk) (l2 :: r2) egr with
         | nil => rw [hs] at hhead; simp at hhead
         | cons a b => rw [hs] at hhead; simp at hhead; exact ⟨b, by rw [hhead]⟩
-      have hfoot := rfootOf_mem hlink.1
+      obtain ⟨dd, hdd⟩ := hlink.1
+      have hfoot := rfootOf_mem hdd
       simp only [stepsOfLegs, he, hx, List.cons_append, List.nil_append, htail, ridesValid, boardOf, unboardOf,
         Step.tripOf, Step.clock, Step.stopOf]
       rw [htail] at hrec
       refine ⟨⟨e, hCT _ hr.1, x, hCT _ hr.2.1, hr.2.2.1, hr.2.2.2.1, hr.2.2.2.2.1, hr.2.2.2.2.2, rfl, ?_⟩,
-        by rw [← hm]; exact ht, ⟨l.dist, hfoot⟩, ?_⟩
+        by rw [← hm]; exact ht, ⟨dd, hfoot⟩, ?_⟩
       · exact ⟨_, _, by rw [hr.2.2.1]⟩
       · simpa [boardOf] using hrec
 
